@@ -105,6 +105,7 @@ type Step struct {
 	On   bool        `json:"on,omitempty"`
 	Env  *EnvJ       `json:"env,omitempty"`
 	Nw   bool        `json:"nw,omitempty"` // do not wait for quiescence after this step
+	Cow  bool        `json:"cow,omitempty"` // sopen: cancel the caller's context inside the transport write of the opening envelope
 }
 
 // runners are self-contained scenario executors for families that do not use
@@ -521,6 +522,17 @@ func (rt *runtimeS) step(st Step) {
 		rt.calls[st.C] = cl
 		rt.w.queue(st.C)
 		rt.w.push(st.C, st.Hp...)
+		if st.Cow {
+			// the caller's context ends at the moment the transport has accepted the opening envelope,
+			// before NewStream returns ("right after opening")
+			p := rt.pipeOf(cl.conn, "c2s")
+			p.with(func() {
+				p.onWrite = func() {
+					tr.emit(cl.base("Cancel"))
+					cl.cancel()
+				}
+			})
+		}
 		go cl.runStream(rt.clis[cl.conn].cc, st)
 	case "send":
 		rt.calls[st.C].sendQ <- cop{"send", st.Pay}
